@@ -194,6 +194,9 @@ func (e *Env) hSequence(ops []string) map[string]interface{} {
 		}
 	}
 	obs := []map[string]interface{}{}
+	// every kind of API error makes a reconcile fail; the failing ones of a sequence rotate through them
+	failKinds := []string{"ServerError", "Forbidden", "Conflict", "Invalid", "Timeout", "AlreadyExists"}
+	nfail := len(ops) + 5*len(ops[0])
 	for _, op := range ops {
 		processed := false
 		switch op {
@@ -209,7 +212,9 @@ func (e *Env) hSequence(ops []string) map[string]interface{} {
 				processed = true
 				e.api.ResetLog()
 				if op == "Pfail" || op == "PfailE" {
-					e.api.faults = []Fault{{List: 1, Kind: "ServerError"}}
+					// ... at the first list call (adoption of revisions) or at the second (inside the control's UpdateStatefulSet)
+					e.api.faults = []Fault{{List: 1 + (nfail/len(failKinds))%2, Kind: failKinds[nfail%len(failKinds)]}}
+					nfail++
 				}
 				first := true
 				e.api.before = func(k int, verb, res, name string) {
